@@ -32,6 +32,8 @@ def run(prop, tier, verdict):
         sel = core + core + rnd.sample(rest, 110)
         # the barrier profile (32 goroutines released together on one session): raw and json protocols, always included
         sel += [c for c in cells if c.get('barrier') and c['pipe'] == '' and c['codec'] == 'j' and c['proto'] in ('raw', 'pb')]
+        # the mixed-outcome profile (handler statuses and unknown routes among the concurrent calls): text codecs, always included
+        sel += [c for c in cells if c.get('mixed') and c['pipe'] == '' and c['codec'] in ('j', 'x', 'f') and c['proto'] in ('raw', 'json', 'pb', 'thriftbin')]
         ops = 10
     scen = []
     for i, c in enumerate(sel):
